@@ -177,7 +177,7 @@ func (r *v01ChunkReader) Read(p []byte) (int, error) {
 	return n, nil
 }
 
-const v01NTemplates = 9
+const v01NTemplates = 12
 
 // v01MkValue builds a value of template k in the writer-side context.  Leaf
 // bytes are symbolic; null selects the null value of the type.
@@ -207,6 +207,14 @@ func v01MkValue(zctx *zed.Context, name string, k int, null bool) zed.Value {
 	case 6: // [int64] with a null element
 		typ = zctx.LookupTypeArray(zed.TypeInt64)
 		body = zcode.Append(zcode.Append(nil, leaf("e")), nil)
+	case 9: // "" : a present value with a zero-length body (must not read back as null)
+		typ, body = zed.TypeString, []byte{}
+	case 10: // {} : the empty record, zero-length body
+		typ = zctx.MustLookupTypeRecord(nil)
+		body = []byte{}
+	case 11: // [] of int64: the empty array, zero-length body
+		typ = zctx.LookupTypeArray(zed.TypeInt64)
+		body = []byte{}
 	case 8: // {o:{a:int64}}: nests the record of template 3
 		typ = zctx.MustLookupTypeRecord([]zed.Field{zed.NewField("o", recA())})
 		body = zcode.Append(nil, zcode.Append(nil, leaf("a")))
@@ -245,6 +253,14 @@ func v01TypeIs(typ zed.Type, k int) bool {
 	case 6:
 		a, ok := typ.(*zed.TypeArray)
 		return ok && a.Type == zed.TypeInt64
+	case 9:
+		return typ == zed.TypeString
+	case 10:
+		r, ok := typ.(*zed.TypeRecord)
+		return ok && len(r.Fields) == 0
+	case 11:
+		a, ok := typ.(*zed.TypeArray)
+		return ok && a.Type == zed.TypeInt64
 	case 8:
 		r, ok := typ.(*zed.TypeRecord)
 		return ok && len(r.Fields) == 1 && r.Fields[0].Name == "o" && isRecA(r.Fields[0].Type)
@@ -259,7 +275,7 @@ func v01TypeIs(typ zed.Type, k int) bool {
 	return false
 }
 
-var v01QuickFirst = [][2]int{{0, 0}, {1, 0}, {2, 0}, {3, 0}, {4, 0}, {5, 0}, {6, 0}, {7, 0}, {0, 1}, {5, 1}}
+var v01QuickFirst = [][2]int{{0, 0}, {1, 0}, {2, 0}, {3, 0}, {4, 0}, {5, 0}, {6, 0}, {7, 0}, {0, 1}, {5, 1}, {9, 0}, {10, 0}, {11, 0}}
 // templates 5 and 8 nest the record type of template 3: when it was defined in an
 // earlier frame the reader must still hold its field names intact (they may not
 // alias the read buffer, which has been refilled since)
@@ -363,7 +379,7 @@ func v01Stream(quick bool) {
 }
 
 // verif:desc C01-O6 stream level, Threads=1: 1-2 values written with zngio.Writer (Write/flush/writeBlock/EndStream/Close, Encoder.Encode) and read back with NewReaderWithOpts+Read (scannerSync.Pull, parser.read, Decoder.decode, Mapper, worker.scanBatch/decodeVal, peeker over a chunking source): same number of values, same order, same null-ness and bytes, structurally the same types (field and type names checked after the whole input has passed through the read buffer); EOF afterwards.
-// verif:bounds first value from 8 templates (int64, string, null, {a:int64}, n=int64, nr={a:int64}, [int64], {b:string,c:n=string}) with 2 symbolic leaf bytes, or null int64 / null nr; second from {int64,{a:int64},n=int64,{b:string,c:n=string}, null {a:int64}, nr={a:int64}, {o:{a:int64}}} (the last two nest a record type that an earlier frame may have defined); FrameThresh any value in 1..2^20 (symbolic); between the values nothing / EndStream / Close + new writer on the same sink (concatenated streams; type id 30 and name n re-bound); reader (read size, source chunk, Validate) in {(1,1,off),(7,unlimited,on),(1,unlimited,on)}; compression off
+// verif:bounds first value from 11 templates (int64, string, null, {a:int64}, n=int64, nr={a:int64}, [int64], {b:string,c:n=string} with 2 symbolic leaf bytes; the zero-length values "", {} and [] — present, not null), or null int64 / null nr; second from {int64,{a:int64},n=int64,{b:string,c:n=string}, null {a:int64}, nr={a:int64}, {o:{a:int64}}} (the last two nest a record type that an earlier frame may have defined); FrameThresh any value in 1..2^20 (symbolic); between the values nothing / EndStream / Close + new writer on the same sink (concatenated streams; type id 30 and name n re-bound); reader (read size, source chunk, Validate) in {(1,1,off),(7,unlimited,on),(1,unlimited,on)}; compression off
 // verif:outside LZ4 compression; multi-threaded scanner (goroutines/channels); sync.Pool buffer reuse (Get returns a fresh object in the engine); more than 2 values; other types
 // verif:unwind 64
 func VerifH_C01_O6_stream() {
